@@ -430,22 +430,21 @@ Qed.
 (* re-staging: t1 was staged and transferred, then the source changed into t2 (any rewrite) and is
    staged into the same odb: the checkout is t2 - the current data - provided no two contents of the
    two generations collide *)
-Theorem restage_thm path t1 t2 :
+Theorem restage_thm path t1 t2 s0 :
   wf_tree t1 -> wf_tree t2 -> text_tree t2 -> digest_ok ->
   collision_free (in_play t1 ++ in_play t2) ->
-  exists sg1 sg2, stage H path (walk_of (rstrip_sep path) t1) = Ok sg1 /\
-    stage_from H (sg_store sg1) path (walk_of (rstrip_sep path) t2) = Ok sg2 /\
-    checkout (sg_store sg2) (sg_oid sg2) = Ok (sort_by file_leb (files t2)).
+  exists sg1, stage H path (walk_of (rstrip_sep path) t1) = Ok sg1 /\
+    (incl s0 (sg_store sg1) ->
+     exists sg2, stage_from H s0 path (walk_of (rstrip_sep path) t2) = Ok sg2 /\
+       checkout (sg_store sg2) (sg_oid sg2) = Ok (sort_by file_leb (files t2))).
 Proof.
-  intros Hwf1 Hwf2 Htx Hdig Hcf. eexists. 
-  destruct (obj_from_thm (st_add (digestH H (built_tree t1), as_bytes false (built_tree t1))
-                            (st_add_all (objs_of (files t1)) [])) path t2 Hwf2 Htx Hdig) as [sg2 [Hs Hc]].
-  - eapply collision_free_incl; [|exact Hcf]. intros x Hi.
-    apply in_app_or in Hi as [Hi|Hi]; apply in_or_app; [left|now right].
-    apply in_st_add in Hi as [->|Hi].
-    + unfold in_play. apply in_or_app. right. now left.
-    + apply in_st_add_all in Hi as [Hi|[]]. unfold in_play. apply in_or_app. now left.
-  - exists sg2. split; [apply stage_spec; exact Hwf1|]. simpl. split; assumption.
+  intros Hwf1 Hwf2 Htx Hdig Hcf. eexists. split; [apply stage_spec; exact Hwf1|]. simpl. intros Hincl.
+  apply obj_from_thm; try assumption.
+  eapply collision_free_incl; [|exact Hcf]. intros x Hi.
+  apply in_app_or in Hi as [Hi|Hi]; apply in_or_app; [left|now right].
+  apply Hincl in Hi. apply in_st_add in Hi as [->|Hi].
+  - unfold in_play. apply in_or_app. right. now left.
+  - apply in_st_add_all in Hi as [Hi|[]]. unfold in_play. apply in_or_app. now left.
 Qed.
 
 Theorem shallow_store_spec path t :
